@@ -19,8 +19,6 @@ OPS = ["add", "subtract", "multiply", "divide", "modulo", "integer_divide"]
 COQ_OP = {"add": "OAdd", "subtract": "OSub", "multiply": "OMul", "divide": "ODiv",
           "modulo": "OMod", "integer_divide": "OFloordiv"}
 TREE_OPS = {"add": "EAdd", "subtract": "ESub", "multiply": "EMul", "divide": "EDiv"}
-QUIRK_CLS = "floordiv:sympy-Integer-by-nonint-Rational-exact-negative-quotient"
-TRUNC_CLS = "floordiv:nonint-Rational-by-sympy-Integer-opposite-signs"
 
 PREAMBLE = ("From Coq Require Import ZArith QArith List Bool.\n"
             "From Vy Require Import Model.Arith.\nImport ListNotations.\n")
@@ -153,15 +151,21 @@ def expected(op, a, b):
 
 
 def eval_tree_frac(t):
-    """(value, number of zero divisors met) with the property's x/0 = 0."""
+    """(value, zero divisors met, widest intermediate value in bits, widest operand of a
+    division in bits) with the property's x/0 = 0."""
     if t[0] == "lit":
-        return frac(t[1]), 0
-    l, zl = eval_tree_frac(t[1])
-    r, zr = eval_tree_frac(t[2])
-    z = zl + zr
-    if t[0] == "divide" and r == 0:
-        return Fraction(0), z + 1
-    return expected(t[0], l, r), z
+        v = frac(t[1])
+        return v, 0, max(abs(v.numerator).bit_length(), v.denominator.bit_length()), 0
+    l, zl, wl, dl = eval_tree_frac(t[1])
+    r, zr, wr, dr = eval_tree_frac(t[2])
+    z, dw = zl + zr, max(dl, dr)
+    if t[0] == "divide":
+        dw = max(dw, abs(l.numerator).bit_length(), abs(r.numerator).bit_length())
+        v = Fraction(0) if r == 0 else l / r
+        z += 1 if r == 0 else 0
+    else:
+        v = expected(t[0], l, r)
+    return v, z, max(wl, wr, abs(v.numerator).bit_length(), v.denominator.bit_length()), dw
 
 
 def res_value(c):
@@ -182,19 +186,8 @@ def coq_cval(c):
     return "COther"
 
 
-# Which model integer_divide is compared with.  The exact floor (vfloordiv) everywhere,
-# except inside an operand class that known_findings.json records as a known defect:
-# there the model of sympy's `//` (vfloordiv_impl) is used.  The operand tags select it:
-# `lsym` only matters for class (1), `rsym` only for class (2), and
-# C07_floordiv_impl_pyint proves vfloordiv_impl false false = vfloordiv.
-RECORDED = set()
-
-
 def coq_case(op, va, vb, c):
-    lsym = va[2] == "sym" and QUIRK_CLS in RECORDED
-    rsym = vb[2] == "sym" and TRUNC_CLS in RECORDED
-    return (f"K {COQ_OP[op]} {'true' if lsym else 'false'} {'true' if rsym else 'false'} "
-            f"({va[0]}) {va[1]} ({vb[0]}) {vb[1]} {coq_cval(c)}")
+    return f"K {COQ_OP[op]} ({va[0]}) {va[1]} ({vb[0]}) {vb[1]} {coq_cval(c)}"
 
 
 def coq_tree(t):
@@ -267,15 +260,149 @@ def big_pairs(rng, n):
     return out
 
 
+def bits(n):
+    return abs(int(n)).bit_length()
+
+
+def bucket(b):
+    for hi, name in ((16, "<=16"), (32, "17-32"), (53, "33-53"), (64, "54-64"), (128, "65-128")):
+        if b <= hi:
+            return name
+    return ">128"
+
+
+def structured_ints():
+    """Whole numbers around the places where machine arithmetic stops being exact."""
+    out = set()
+    for k in (24, 31, 32, 52, 53, 54, 62, 63, 64, 65, 100, 127, 128, 130):
+        out.update((2**k - 1, 2**k, 2**k + 1))
+    for k in (9, 12, 15, 16, 17, 18, 19, 20, 24, 30, 40):
+        out.update((10**k - 1, 10**k, 10**k + 1))
+    out.update((math.factorial(20), math.factorial(25), math.factorial(30), 10**6 * 10**6 * 10**6 + 1,
+                3**34, 3**40, 7**23, 9007199254740993, 123456789012345678901234567890))
+    small = list(range(1, 13))
+    for x in small:                      # products of the small operands
+        for y in small:
+            out.add((x * y) ** 9 + 1)
+    out = sorted(v for v in out if v <= 10**40)
+    return out + [-v for v in out]
+
+
+def rand_big_int(rng):
+    """|n| <= 10^40 with the bit length (not the value) uniform, so 53- and 64-bit sizes are hit."""
+    n = rng.getrandbits(rng.randint(1, 132))
+    n = min(n, 10**40)
+    return -n if rng.random() < 0.5 else n
+
+
+def both_reps(rng, f):
+    return operand(rng, f)
+
+
+def huge_pairs(rng, n):
+    """Integers and rationals with |p|, q up to 10^40: structured values against small
+    divisors and against each other, exact multiples with a huge quotient, near-integer
+    quotients (k*n + 1)/n, random big integers and random big rationals."""
+    S = structured_ints()
+    small = [d for d in range(-12, 13) if d != 0]
+    out = []
+
+    def add(a, b):
+        a, b = Fraction(a), Fraction(b)
+        if max(abs(a.numerator), a.denominator, abs(b.numerator), b.denominator) > 10**40:
+            return
+        out.append((operand(rng, a), operand(rng, b)))
+
+    # every structured value by a few small divisors, in both orders (deterministic part)
+    for i, v in enumerate(S):
+        for d in (3, 7, -2, small[i % len(small)]):
+            add(v, d)
+        add(small[i % len(small)], v)
+    while len(out) < n:
+        m = rng.random()
+        if m < 0.15:
+            add(rng.choice(S), rng.choice(S))
+        elif m < 0.30:                   # exact multiple, quotient far above 2^53
+            b = rng.choice(S) if rng.random() < 0.5 else rand_big_int(rng)
+            k = rand_big_int(rng)
+            if b != 0:
+                add(b * k, b)
+        elif m < 0.42:                   # quotient within 1/n of an integer
+            nn = abs(rand_big_int(rng)) + 2
+            k = rng.choice([1, 1, 2, 3, -1, rng.randint(-10**6, 10**6), rand_big_int(rng)])
+            add(k * nn + rng.choice([1, -1]), nn)
+        elif m < 0.60:
+            add(rand_big_int(rng), rand_big_int(rng) or 1)
+        elif m < 0.70:
+            add(rand_big_int(rng), rng.choice(small + [0]))
+        elif m < 0.85:                   # big rational against big rational / integer
+            a = Fraction(rand_big_int(rng), abs(rand_big_int(rng)) + 1)
+            b = Fraction(rand_big_int(rng), abs(rand_big_int(rng)) + 1) if rng.random() < 0.6 else Fraction(rand_big_int(rng))
+            if rng.random() < 0.5:
+                a, b = b, a
+            add(a, b)
+        else:                            # big rational against a small operand
+            a = Fraction(rng.choice(S), rng.choice(S))
+            b = Fraction(rng.randint(-12, 12), rng.randint(1, 6))
+            if rng.random() < 0.5:
+                a, b = b, a
+            add(a, b)
+    return out[:n] if len(out) > n else out
+
+
+STRUCT = structured_ints()
+
+
 def leaf(rng):
     m = rng.random()
-    if m < 0.6:
+    if m < 0.5:
         f = Fraction(rng.randint(-12, 12), rng.randint(1, 6))
-    elif m < 0.85:
+    elif m < 0.7:
         f = Fraction(rng.randint(-1000, 1000), rng.randint(1, 100))
-    else:
+    elif m < 0.82:
         f = Fraction(rng.randint(-10**6, 10**6), rng.randint(1, 10**4))
+    elif m < 0.92:
+        f = Fraction(rng.choice(STRUCT))
+    else:
+        f = Fraction(rand_big_int(rng))
     return ("lit", operand(rng, f))
+
+
+def int_leaf(rng):
+    m = rng.random()
+    if m < 0.35:
+        v = rng.choice([10**3, 10**6, 10**9, 2**16, 2**31, 2**32, 1000003, 999983])
+    elif m < 0.7:
+        v = rng.randint(2, 10**9)
+    elif m < 0.85:
+        v = rng.randint(-10**6, 10**6) or 7
+    else:
+        v = rng.choice(STRUCT)
+    return ("lit", operand(rng, Fraction(v)))
+
+
+def balanced(op, leaves):
+    if len(leaves) == 1:
+        return leaves[0]
+    h = len(leaves) // 2
+    return (op, balanced(op, leaves[:h]), balanced(op, leaves[h:]))
+
+
+def product_chain(rng):
+    """a product of whole numbers (optionally +- a small number), then a division:
+    the dividend exceeds 2^53 / 2^64 routinely.  Depth <= 5."""
+    n = rng.randint(2, 8)                                   # balanced product: depth <= 3
+    t = balanced("multiply", [int_leaf(rng) for _ in range(n)])
+    if rng.random() < 0.6:                                  # depth <= 4
+        t = (rng.choice(["add", "subtract"]), t, ("lit", operand(rng, Fraction(rng.choice([1, 1, 2, 3, 5, 7])))))
+    m = rng.random()
+    if m < 0.5:
+        d = ("lit", operand(rng, Fraction(rng.choice([2, 3, 7, 9, 11, 13, -3, 64, 1000, 10**6]))))
+    elif m < 0.8:
+        d = balanced("multiply", [int_leaf(rng) for _ in range(rng.randint(1, 4))])
+    else:
+        d = leaf(rng)
+    return ("divide", t, d)                                 # depth <= 5
 
 
 def tree(rng, depth):
@@ -297,29 +424,8 @@ def chunks(xs, n):
 # the check
 # ----------------------------------------------------------------------------
 
-def known_class(op, va, vb, c):
-    """The two recorded operand classes of integer_divide (sympy 1.14's `//`), matched
-    narrowly: operand classes AND the exact wrong value the mechanism produces.
-    (1) sympy Integer // non-integer Rational, exact negative quotient: one too small
-        (Number.__divmod__ compares a Rational with a Float);
-    (2) non-integer Rational (not the singleton 1/2) // sympy Integer, opposite signs:
-        Integer.__rfloordiv__ truncates lhs toward zero first."""
-    if op != "integer_divide" or vb[0] == 0:
-        return None
-    a, b, got = frac(va), frac(vb), res_value(c)
-    if va[2] == "sym" and va[1] == 1 and vb[1] != 1:
-        quo = a / b
-        if quo.denominator == 1 and quo < 0 and got == quo - 1:
-            return QUIRK_CLS
-    if va[1] != 1 and (va[0], va[1]) != (1, 2) and vb[2] == "sym" and vb[1] == 1 and a * b < 0:
-        if got == Fraction(math.floor(Fraction(math.trunc(a)) / b)):
-            return TRUNC_CLS
-    return None
-
-
 def oracle_pair(env, va, vb, single, ident, stats):
     a, b = frac(va), frac(vb)
-    quirk_here = None
     for op, c in zip(OPS, single):
         inp = {"op": op, "lhs": show(va), "rhs": show(vb)}
         stats["result_kind"][f"{op}:{c[0] if c[0] != 'EXC' else c[1]}"] += 1
@@ -338,13 +444,7 @@ def oracle_pair(env, va, vb, single, ident, stats):
         if c[0] == "rat" and (c[2] <= 1 or math.gcd(c[1], c[2]) != 1):
             env.fail(inp, f"rational result not in lowest terms / integer typed as Rational: {c}", cls=f"unreduced:{op}")
         if res_value(c) != want:
-            kc = known_class(op, va, vb, c)
-            if kc is not None:
-                quirk_here = kc
-                stats["quirk"][kc] += 1
-                env.fail(inp, f"integer_divide gives {res_value(c)}, floor of the exact quotient is {want}", cls=kc)
-            else:
-                env.fail(inp, f"{op} gives {res_value(c)}, the mathematical result is {want}", cls=f"wrong-value:{op}")
+            env.fail(inp, f"{op} gives {res_value(c)}, the mathematical result is {want}", cls=f"wrong-value:{op}")
         elif op in ("divide", "integer_divide") and b == 0 and c != ("int", 0):
             env.fail(inp, f"{op} by zero gives {c}, not 0", cls=f"by-zero:{op}")
     if ident is not None:
@@ -353,7 +453,7 @@ def oracle_pair(env, va, vb, single, ident, stats):
         for nm, c in zip(names, ident):
             if res_value(c) != a:
                 env.fail({"identity": nm, "a": show(va), "b": show(vb)}, f"identity gives {c}",
-                         cls=quirk_here if (quirk_here and "integer_divide" in nm) else f"identity:{nm.split('(')[0]}")
+                         cls=f"identity:{nm.split('(')[0]}")
         md = res_value(single[OPS.index("modulo")])
         if md is not None and not ((0 <= md < b) if b > 0 else (b < md <= 0)):
             env.fail({"op": "modulo", "lhs": show(va), "rhs": show(vb)}, f"remainder {md} outside [0, b) / (b, 0]", cls="mod-range")
@@ -371,6 +471,9 @@ def run_pairs(env, name, pairs, stats):
         for (va, vb), (single, ident) in zip(chunk, val):
             oracle_pair(env, va, vb, single, ident, stats)
             n_eval += 6 + (3 if ident is not None else 0)
+            stats["pair_bits"][name][bucket(max(bits(va[0]), bits(va[1]), bits(vb[0]), bits(vb[1])))] += 1
+            if va[1] == 1 and vb[1] == 1 and vb[0] != 0 and (bits(va[0]) > 53 or bits(va[0]) - bits(vb[0]) >= 53):
+                stats["wide_divisions"][name] += 1
             for kind in (va, vb):
                 stats["operand_kind"]["python int" if kind[2] == "py" else ("sympy Integer" if kind[1] == 1 else "sympy Rational")] += 1
             for op, c in zip(OPS, single):
@@ -398,7 +501,7 @@ def run_pairs(env, name, pairs, stats):
 
 def run_trees(env, n, stats):
     rng = env.rng
-    trees = [tree(rng, rng.randint(1, 5)) for _ in range(n)]
+    trees = [product_chain(rng) if rng.random() < 0.4 else tree(rng, rng.randint(1, 5)) for _ in range(n)]
     res = V.pmap(eval_trees, chunks(trees, 200), timeout=env.budget(120, 300))
     cases = []
     keys = []
@@ -407,9 +510,13 @@ def run_trees(env, n, stats):
             env.proof_broken(f"implementation did not finish a batch of expression trees ({st})", str(val))
             continue
         for t, c in zip(chunk, val):
-            want, zeros = eval_tree_frac(t)
+            want, zeros, width, divwidth = eval_tree_frac(t)
             d = tree_depth(t)
+            assert d <= 5
             stats["tree_depth"][d] += 1
+            stats["tree_bits"][bucket(width)] += 1
+            if divwidth > 53:
+                stats["tree_wide_divisions"] += 1
             stats["tree_result_kind"][c[0] if c[0] != "EXC" else c[1]] += 1
             if zeros:
                 stats["trees_with_zero_divisor"] += 1
@@ -437,37 +544,42 @@ def run(env):
     V.import_repo()
     import vyxal.elements  # noqa: F401  (imported before the workers fork)
     import vyxal.context  # noqa: F401
-    RECORDED.clear()
-    for k in env.known:
-        if k.get("status") == "known":
-            RECORDED.update(x for x in [k.get("class")] + list(k.get("classes", [])) if x in (QUIRK_CLS, TRUNC_CLS))
-    env.note("floordiv_model", "integer_divide is compared with the exact floor (vfloordiv)"
-             + ("".join(f"; inside the recorded class {c} with the model of sympy's // (vfloordiv_impl)" for c in sorted(RECORDED))
-                if RECORDED else " everywhere (no defect class of integer_divide is recorded in known_findings.json)"))
     pmax, qmax = env.budget((12, 6), (16, 8))
     n_big = env.budget(2500, 25000)
-    n_trees = env.budget(3000, 30000)
+    n_huge = env.budget(4000, 30000)
+    n_trees = env.budget(4000, 30000)
     env.rule = (
         f"the six number/number overloads add, subtract, multiply, divide, modulo, integer_divide called as vyxal.elements.<op>(lhs, rhs, Context()) "
         f"on EVERY ordered pair of reduced rationals with |p| <= {pmax}, q <= {qmax} in every operand representation (integers as Python int and as sympy Integer, "
         f"non-integers as sympy Rational), on {n_big} sampled pairs with |p| <= 10^6, q <= 10^4 (a fifth with an exact integer quotient, zero and integer operands mixed in), "
-        f"and {n_trees} random expression trees of depth <= 5 over + - * / whose intermediate results are fed back as returned. "
+        f"on {n_huge} pairs of integers and rationals with |p|, q up to 10^40 (2^k+-1 for k around 53 and 64, 10^k+-1, factorials, products of the small operands, each by small divisors and by each other; "
+        f"exact multiples with a quotient far above 2^53; (k*n+-1)/n; random big integers with uniform bit length; big rationals), "
+        f"and {n_trees} random expression trees of depth <= 5 over + - * / whose intermediate results are fed back as returned, 40% of them a balanced product of 2..8 whole numbers (+- a small number) "
+        f"divided by a small or composite divisor so that dividends exceed 2^53 and 2^64, leaves including integers up to 10^40. "
         "Each result is canonicalised to (int n) / (rat p q) / exception / NONRATIONAL(type) and (1) compared inside Coq (vm_compute) with the model of coq/Model/Arith.v, "
         "(2) checked directly: type is int or sympy Integer/Rational, value equals fractions.Fraction arithmetic (x/0 = x//0 = 0), lowest terms, "
         "(a/b)*b == a, (a*b)/b == a, (a//b)*b + a%b == a, remainder range. "
         "Non-trivial = both operands non-zero and the result is a number different from both operands (trees: depth >= 2 and non-zero value); distinct by operator, operands and representation.")
     stats = {"result_kind": collections.Counter(), "operand_kind": collections.Counter(), "modulo_by_zero": collections.Counter(),
              "tree_depth": collections.Counter(), "tree_result_kind": collections.Counter(), "trees_with_zero_divisor": 0,
-             "quirk": collections.Counter(), "cases": {}, "modulo_by_zero_drift": 0}
+             "cases": {}, "modulo_by_zero_drift": 0, "pair_bits": collections.defaultdict(collections.Counter),
+             "wide_divisions": collections.Counter(), "tree_bits": collections.Counter(), "tree_wide_divisions": 0}
     vals = box(pmax, qmax)
     small = [(a, b) for a in vals for b in vals]
     cases = run_pairs(env, "box", small, stats)
     big = big_pairs(env.rng, n_big)
     cases_big = run_pairs(env, "big", big, stats)
+    huge = huge_pairs(env.rng, n_huge)
+    cases_huge = run_pairs(env, "huge", huge, stats)
     tcases = run_trees(env, n_trees, stats)
 
     env.note("exhaustive_box", {"pmax": pmax, "qmax": qmax, "operand_values_with_representation": len(vals), "ordered_pairs": len(small)})
     env.note("sampled_big_pairs", len(big))
+    env.note("huge_operand_pairs", len(huge))
+    env.note("operand_bit_length_distribution_per_stream (widest of |p|, q over both operands)", {k: dict(v) for k, v in stats["pair_bits"].items()})
+    env.note("pairs_of_whole_operands_with_dividend_or_quotient_above_2^53", dict(stats["wide_divisions"]))
+    env.note("tree_widest_intermediate_value_bits", dict(stats["tree_bits"]))
+    env.note("trees_with_a_division_operand_above_2^53", stats["tree_wide_divisions"])
     env.note("correspondence_cases", stats["cases"])
     env.note("operand_kind_distribution", dict(stats["operand_kind"]))
     env.note("result_kind_distribution", dict(sorted(stats["result_kind"].items())))
@@ -475,7 +587,6 @@ def run(env):
     env.note("tree_depth_distribution", {str(k): v for k, v in sorted(stats["tree_depth"].items())})
     env.note("tree_result_kind_distribution", dict(stats["tree_result_kind"]))
     env.note("trees_with_a_zero_divisor", stats["trees_with_zero_divisor"])
-    env.note("failing_inputs_in_recorded_floordiv_classes", dict(stats["quirk"]))
     if stats["modulo_by_zero_drift"]:
         env.note("modulo_by_zero_no_longer_raises", f"{stats['modulo_by_zero_drift']} modulo-by-zero calls returned a number where Model/Arith.v (vmod_impl) records ZeroDivisionError; "
                  "outside the property, not counted as a disagreement: update vmod_impl")
@@ -490,6 +601,10 @@ def run(env):
         for j in (3, 4, 5):
             op, va, vb, c = cases_big[(len(cases_big) // 2 // 6) * 6 + j]
             env.sample({"call": f"{op}({show(va)}, {show(vb)})", "result": list(c)})
+    if cases_huge:
+        for j in (3, 5):
+            op, va, vb, c = cases_huge[(len(cases_huge) // 3 // 6) * 6 + j]
+            env.sample({"call": f"{op}({show(va)}, {show(vb)})", "result": [str(x) for x in c]})
     if tcases:
         t, c = max(tcases[:50], key=lambda tc: tree_depth(tc[0]))
         env.sample({"tree": coq_tree(t), "result": [str(x) for x in c]})
